@@ -3,3 +3,5 @@ pub mod c09;
 pub mod c13;
 pub mod c14;
 pub mod c01;
+pub mod c12;
+pub mod c06;
